@@ -114,8 +114,12 @@ class GaussUniform(VFModel):
     """Unit Gaussian likelihood centred at `mu`, uniform prior on a box."""
 
     def __init__(self, dims=2, lo=-5.0, hi=5.0, mu=0.0, names=None,
-                 offset=0.0, bounds_order="names"):
+                 offset=0.0, bounds_order="names", prior_bounds_check=True):
         self._init_common()
+        # False: log_prior is the plain uniform density without a test of
+        # the bounds (accepted by verify_model; the samplers apply the
+        # bounds themselves)
+        self.prior_bounds_check = bool(prior_bounds_check)
         # constant added to the log-likelihood (an unnormalised likelihood)
         self.offset = float(offset)
         self.names = names or [f"x{i}" for i in range(dims)]
@@ -141,6 +145,9 @@ class GaussUniform(VFModel):
 
     # nessai API
     def log_prior(self, x):
+        if not self.prior_bounds_check:
+            return np.full(np.shape(np.atleast_1d(x)), -self._log_vol) \
+                if np.ndim(x) else np.float64(-self._log_vol)
         ok = self.in_bounds(x)
         lp = np.where(ok, -self._log_vol, -np.inf)
         return lp
@@ -433,6 +440,48 @@ class Rosenbrock(VFModel):
     true_log_evidence = None
 
 
+class HalfBounded(VFModel):
+    """x0 uniform on [-5, 5]; y >= 0 with a half-normal prior (an unbounded
+    parameter with one finite bound, as in nessai's unbounded-prior example);
+    Gaussian likelihood with its mass next to the bound y = 0.  `new_point`
+    draws from the prior (required for unbounded priors)."""
+
+    def __init__(self, s_y=3.0, mu_y=0.5):
+        self._init_common()
+        self.names = ["x0", "y"]
+        self.bounds = {"x0": [-5.0, 5.0], "y": [0.0, math.inf]}
+        self.s_y = float(s_y)
+        self.mu_y = float(mu_y)
+        self._lp0 = -math.log(10.0) + math.log(2.0) - math.log(self.s_y) \
+            - 0.5 * LOG_2PI
+
+    def _ref_bounds(self):
+        return {"x0": (-5.0, 5.0), "y": (0.0, math.inf)}
+
+    def log_prior(self, x):
+        u = x["y"] / self.s_y
+        lp = self._lp0 - 0.5 * (u * u)
+        return np.where(self.in_bounds(x), lp, -np.inf)
+
+    def _log_l(self, x):
+        a = x["x0"]
+        b = x["y"] - self.mu_y
+        return -LOG_2PI - 0.5 * (a * a + b * b)
+
+    def new_point(self, N=1):
+        from nessai.livepoint import numpy_array_to_live_points
+
+        x = np.empty((N, 2))
+        x[:, 0] = np.random.uniform(-5.0, 5.0, N)
+        x[:, 1] = np.abs(np.random.normal(0.0, self.s_y, N))
+        return numpy_array_to_live_points(x, self.names)
+
+    def new_point_log_prob(self, x):
+        return self.log_prior(x)
+
+    true_log_evidence = None
+
+
 class PeriodicAngle(GaussUniform):
     """One angle on [0, 2pi] (name 'phi') plus ordinary parameters; Gaussian
     likelihood centred in the box so that wrapping does not matter to the
@@ -510,6 +559,7 @@ REGISTRY = {
     "quantised": Quantised,
     "rosenbrock": Rosenbrock,
     "periodic": PeriodicAngle,
+    "half_bounded": HalfBounded,
     "gw_named": GWNamed,
 }
 
